@@ -415,8 +415,19 @@ def shrink_header(hdr, fails, budget=400):
     return hdr
 
 
-def pure_failure(hdr, length, why, res):
-    mini = shrink_header(hdr, lambda h: judge_pure(h, length)[1] is not None)
+MAX_RECORDED = 40      # failures/disagreements kept per channel (the rest is only counted)
+MAX_SHRUNK = 3         # failures shrunk to a minimal header per channel
+
+
+def _record(lst, ch, key, item):
+    if len(lst) < MAX_RECORDED:
+        lst.append(item() if callable(item) else item)
+    else:
+        ch.count(key + "_not_recorded")
+
+
+def pure_failure(hdr, length, why, res, shrink=True):
+    mini = shrink_header(hdr, lambda h: judge_pure(h, length)[1] is not None) if shrink else hdr
     r2, w2 = judge_pure(mini, length)
     return {"kind": "pure", "header": hdr_json(mini), "length": length, "what": w2 or why,
             "observed": canon_pure(r2 if w2 else res)}
@@ -470,20 +481,19 @@ def run_pure(cases, ch: Channel, tag="gen"):
         ch.count("len:" + ("0" if n == 0 else "1-9" if n < 10 else "10-9999" if n < 10000 else
                            "1e4-1e7" if n < 10 ** 7 else ">=2^31"))
         if why is not None:
-            ch.oracle_failures.append(pure_failure(hdr, n, why, res))
+            _record(ch.oracle_failures, ch, "oracle_failures",
+                    lambda: pure_failure(hdr, n, why, res, shrink=len(ch.oracle_failures) < MAX_SHRUNK))
         if i in model:
             mo = canon_pure_model(model[i])
             if mo != impl:
-                ch.disagreements.append({"kind": "pure", "header": hdr_json(hdr), "length": n,
-                                         "model": mo, "impl": impl})
+                _record(ch.disagreements, ch, "disagreements",
+                        {"kind": "pure", "header": hdr_json(hdr), "length": n, "model": mo, "impl": impl})
             if res[0] == "ok":
                 ch.nontrivial.add((hdr, n))
         else:
             ch.count("outside-model-domain(oracle only)")
-        if res[0] == "ok" and cls != "other":
-            ch.sample({"header": hdr, "length": n, "result": impl}, limit=3)
-        elif cls == "other" and res[0] == "ok":
-            ch.sample({"header": hdr, "length": n, "result": impl}, limit=5)
+        if res[0] == "ok" and res[3] == 206 and n > 1 and (cls != "other" or len(ch.samples) >= 2):
+            ch.sample({"header": hdr, "length": n, "result": impl}, limit=4)
 
 
 # --------------------------------------------------------------------------
@@ -605,8 +615,8 @@ def judge_e2e(client, res: Resource, hdr):
     return o, judge(hdr, res.length, obs_e2e(o, res), res.mandatory)
 
 
-def e2e_failure(client, res, hdr, why, o):
-    mini = shrink_header(hdr, lambda h: (judge_e2e(client, res, h)[1] is not None), budget=120)
+def e2e_failure(client, res, hdr, why, o, shrink=True):
+    mini = shrink_header(hdr, lambda h: (judge_e2e(client, res, h)[1] is not None), budget=120) if shrink else hdr
     o2, w2 = judge_e2e(client, res, mini)
     if w2 is None:
         mini, o2, w2 = hdr, o, why
@@ -670,12 +680,14 @@ def run_e2e(ctx, ch: Channel):
                 ch.count(f"class:{classify(h)[0]}")
                 ch.count(f"resource:{res.url.split('?')[0]}")
                 if why is not None:
-                    ch.oracle_failures.append(e2e_failure(client, res, h, why, o))
+                    _record(ch.oracle_failures, ch, "oracle_failures",
+                            lambda: e2e_failure(client, res, h, why, o, shrink=len(ch.oracle_failures) < MAX_SHRUNK))
                 if i in model:
                     impl = canon_e2e(o, res, model[i])
                     if impl != model[i]:
-                        ch.disagreements.append({"kind": "e2e", "url": res.url, "header": hdr_json(h),
-                                                 "clock": CLOCK0, "model": model[i], "impl": impl})
+                        _record(ch.disagreements, ch, "disagreements",
+                                {"kind": "e2e", "url": res.url, "header": hdr_json(h), "clock": CLOCK0,
+                                 "model": model[i], "impl": impl})
                     if o["status"] in (206, 416):
                         ch.nontrivial.add((res.url, h))
                 else:
